@@ -187,6 +187,13 @@ void wire_stmts(Scope &sc, const JV &stmts) {
             for (auto &a : st.at("args").a) {
                 std::string name = a.str_or("name", "");
                 if (auto *t = a.get("ts")) args.push_back(ts_arg(resolve_ref(sc, *t), name));
+                else if (auto *fo = a.get("fn_op")) {
+                    // a library operator itself as the function value (fn<stdlib::add_>()): the reduce then takes its lifted-kernel path
+                    const std::string &on = fo->as_str();
+                    WiredFn wf = on == "add_" ? fn<stdlib::add_>() : on == "max_" ? fn<stdlib::max_>() : on == "min_" ? fn<stdlib::min_>()
+                                 : on == "mul_" ? fn<stdlib::mul_>() : throw std::runtime_error("harness: fn_op " + on + " not supported");
+                    args.push_back(sc_arg(Value{wf}, name));
+                }
                 else if (auto *f = a.get("fn")) args.push_back(sc_arg(Value{make_wired_fn(*sc.prog, f->as_str())}, name));
                 else if (auto *cs = a.get("cases")) {
                     stdlib::SwitchCases cases;
